@@ -94,12 +94,13 @@ def extract(path, sig_regex, nth=0, text=None):
     }
 
 
-def extract_region(path, start_regex, end_regex, text=None):
-    """Verbatim region between two must-match regexes (exclusive of the end match)."""
+def extract_region(path, start_regex, end_regex, text=None, nth=0):
+    """Verbatim region between two must-match regexes (exclusive of the end match); nth selects the nth start match."""
     s = text if text is not None else open(path, encoding="utf-8", errors="surrogateescape").read()
-    m = re.search(start_regex, s, re.S)
-    if not m:
-        raise SliceError("region start not found: %s in %s" % (start_regex, path))
+    ms = list(re.finditer(start_regex, s, re.S))
+    if len(ms) <= nth:
+        raise SliceError("region start not found (%d matches, need #%d): %s in %s" % (len(ms), nth, start_regex, path))
+    m = ms[nth]
     e = re.compile(end_regex, re.S).search(s, m.end())
     if not e:
         raise SliceError("region end not found: %s in %s" % (end_regex, path))
